@@ -38,7 +38,7 @@ var Prop = &engine.Prop{
 		"UpdateHandler after Start and panics inside OnExit are not judged",
 		"the loop-back server kind runs under real time; its watchdog expiry is inconclusive",
 	},
-	ShardsQuick: 8, ShardsThorough: 16,
+	ShardsQuick: 8, ShardsThorough: 32,
 	Setup: func(c *engine.Ctx) {
 		Q = engine.NewQuiescer()
 		quietLogger = ulog.NewSimpleLogger("error")
@@ -47,8 +47,8 @@ var Prop = &engine.Prop{
 		Q = engine.NewQuiescer()
 	},
 	Kinds: []engine.Kind{
-		{Name: "faults", Quick: 8000, Thorough: 300000, Fn: faultCase},
-		{Name: "server", Quick: 16, Thorough: 320, Fn: serverCase},
+		{Name: "faults", Quick: 8000, Thorough: 600000, Fn: faultCase},
+		{Name: "server", Quick: 16, Thorough: 640, Fn: serverCase},
 	},
 	Floors: map[string]int64{
 		"sessions":                       2000,
